@@ -33,6 +33,9 @@ func init() {
 	register(&Rule{ID: "MAP.callers", Floor: 5,
 		Doc: "every use of a Lookup result is a nil test or a comma-ok type assertion (a lookup can legitimately yield nil or a value of another kind)",
 		Run: ruleMapCallers})
+	register(&Rule{ID: "MAP.dispatch", Floor: 2,
+		Doc: "the tokenizer's character dispatch is a pure function of the character map: GetCharacterState returns the (comma-ok asserted) result of Lookup on the instance's map and writes nothing, SetCharacterState / ClearCharacterStates only forward to the map — no second copy of the table can go stale",
+		Run: ruleMapDispatch})
 	register(&Rule{ID: "SYM.valid", Floor: 4,
 		Doc: "only complete symbols are marked valid and typed: valid/tokenType are written in the terminal step of AddDescendantLine (remaining text empty) with the caller's type, and for a first character in Add only while its type is still Unknown, with the constants (true, Symbol); a token's type and text are taken from the same node",
 		Run: ruleSymValid})
@@ -812,4 +815,63 @@ func storedInto(v ssa.Value, x ssa.Value) bool {
 		}
 	}
 	return false
+}
+
+func ruleMapDispatch(c *Ctx) []*Obligation {
+	o := newObl("MAP.dispatch")
+	get := c.MustFunc("tokenizers", "AbstractTokenizer", "GetCharacterState")
+	key := c.FuncKey(get) + "#pure-lookup"
+	bad := ""
+	for _, b := range get.Blocks {
+		for _, in := range b.Instrs {
+			switch in.(type) {
+			case *ssa.Store, *ssa.MapUpdate:
+				bad = "GetCharacterState writes state (a cache of dispatch results is not invalidated by later registrations)"
+			}
+		}
+	}
+	okRet := false
+	for _, ret := range returnsOf(get) {
+		for _, leaf := range phiLeaves(ret.Results[0]) {
+			if ex, ok := leaf.(*ssa.Extract); ok {
+				if ta, ok := ex.Tuple.(*ssa.TypeAssert); ok && ta.CommaOk {
+					if call, ok := ta.X.(*ssa.Call); ok {
+						if cc, isL := c.callTo(call, pkgUtil, "CharReferenceMap", "Lookup"); isL {
+							if isFieldLoad(callRecv(cc), "mp") && callArgs(cc)[0] == ssa.Value(get.Params[1]) {
+								okRet = true
+								continue
+							}
+						}
+					}
+				}
+			}
+			if !isNilConst(leaf) {
+				bad = "GetCharacterState returns something other than the map's answer for the character"
+			}
+		}
+	}
+	if !okRet && bad == "" {
+		bad = "GetCharacterState does not return Lookup(symbol) of the instance's map"
+	}
+	o.check(bad == "", key, c.Pos(get.Pos()), "returns mp.Lookup(symbol).(ITokenizerState) and stores nothing", bad)
+	for _, name := range []string{"SetCharacterState", "ClearCharacterStates"} {
+		fn := c.MustFunc("tokenizers", "AbstractTokenizer", name)
+		k := c.FuncKey(fn) + "#forwards-to-map"
+		calls := 0
+		other := ""
+		for _, b := range fn.Blocks {
+			for _, in := range b.Instrs {
+				switch t := in.(type) {
+				case *ssa.Store, *ssa.MapUpdate:
+					other = "writes tokenizer state besides the map"
+				case ssa.CallInstruction:
+					if g := calleeObj(t.Common()); g != nil && recvNamed(g) == "CharReferenceMap" && (g.Name() == "AddInterval" || g.Name() == "Clear") {
+						calls++
+					}
+				}
+			}
+		}
+		o.check(calls == 1 && other == "", k, c.Pos(fn.Pos()), "one call into the character map, no other state", name+" "+other+" (expected exactly one forwarding call into the character map)")
+	}
+	return o.list
 }
